@@ -4,7 +4,6 @@ package main
 
 import (
 	"github.com/pingcap/failpoint"
-	"github.com/tikv/client-go/v2/verifx/hub"
 	"github.com/tikv/client-go/v2/verifx/vx"
 )
 
@@ -26,10 +25,13 @@ func c04Scenario(s shape, batch1 bool, faults []c03Fault, r *vx.Rand) {
 		addC03Fault(sr, f, "b", r)
 		rec.Count("c04:" + f.kind)
 	}
+	var rdDone chan struct{}
 	if r.Chance(30) {
 		// a concurrent reader: its lock resolution requests are part of the monitored stream
 		b := w.NewClient("rd")
+		rdDone = make(chan struct{})
 		go func() {
+			defer close(rdDone)
 			defer func() { recover() }()
 			b.Begin(false, "2pc")
 			b.BGet(s.keys)
@@ -39,13 +41,24 @@ func c04Scenario(s shape, batch1 bool, faults []c03Fault, r *vx.Rand) {
 	if _, ret := sr.final(); !ret {
 		return
 	}
+	if rdDone != nil && !waitUntil(scenarioTimeout, func() bool {
+		select {
+		case <-rdDone:
+			return true
+		default:
+			return false
+		}
+	}) {
+		w.Hang("reader")
+		return
+	}
 	w.Quiesce(scenarioTimeout)
 }
 
 func runC04() {
-	nShapes := 160
+	nShapes := 1500
 	if run.Thorough() {
-		nShapes = 2600
+		nShapes = 30000
 	}
 	kinds := []string{"split", "EpochNotMatch", "NotLeader", "ServerIsBusy", "StaleCommand"}
 	for n := 0; n < nShapes; n++ {
@@ -64,6 +77,5 @@ func runC04() {
 			fs = append(fs, c03Fault{pick(r, kinds), r.Intn(6)})
 		}
 		c04Scenario(s, r.Bool(), fs, r.Fork())
-		_ = hub.Hx
 	}
 }
